@@ -22,7 +22,15 @@ new tip followed by the merged revisions of the removed mainline revisions in me
 in the ancestry of the old tip but of none of the new parents are gone (from the master
 too, for a bound non-local uncommit) unless keep_tags, all other tags stay.  Out-of-date
 bound branch => BoundBranchOutOfDate, `local=True` on an unbound branch =>
-LocalRequiresBoundBranch, nothing changes."""
+LocalRequiresBoundBranch, nothing changes.
+
+Failing tip writes: some uncommits run with the write of the master's or the local branch's
+tip failing - an error raised before the put of `last-revision` at the storage seam, or a
+`pre_change_branch_tip` hook vetoing the change (TipChangeRejected).  uncommit must raise and
+may have done only a prefix of (master tip, local tip, tree parents, tags): with the local
+tip unmoved the tree's parents, its pending changes, the tags and all files are as before;
+the master is unmoved when its own write failed and is at the old or the new tip when the
+local write failed.  The run ends after a failure that fired."""
 
 import json
 import os
@@ -42,7 +50,7 @@ RULE = (
     "one case = one seeded history (8-20 operations: commits with 0-2 pending merges, side commits, merges, tags, uncommits of depth 1-4 with "
     "keep_tags / local / tree variants, depth-1 commit+uncommit round trips, direct master commits, update) on a standalone tree, a lightweight "
     "checkout or a bound checkout; non-trivial = at least one uncommit removed a merge revision, removed >= 2 revisions, met a tag on a removed "
-    "or merged revision, or was refused; distinct = distinct event-log digests of such runs"
+    "or merged revision, was refused, or ran with a failing tip write; distinct = distinct event-log digests of such runs"
 )
 COMPONENTS = {
     "real": [
@@ -52,7 +60,7 @@ COMPONENTS = {
         "vcsgraph Graph.iter_lefthand_ancestry / find_unique_ancestors / heads over the real repository indices",
         "dirstate working trees on /dev/shm; standalone, lightweight and heavyweight (bound) layouts",
     ],
-    "simulated": ["disk of store-hosted branches (SimTransport over memory transport) and of every control directory (sim+file://)", "the user's history (seeded)", "process restart (fresh objects)", "clock of breezy.lockdir"],
+    "simulated": ["disk of store-hosted branches (SimTransport over memory transport) and of every control directory (sim+file://)", "failure of a branch-tip write during uncommit (err_before at the put of last-revision; a vetoing pre_change_branch_tip hook)", "the user's history (seeded)", "process restart (fresh objects)", "clock of breezy.lockdir"],
     "stub": ["UI (SilentUIFactory)", "user identity / BRZ_HOME (scratch)"],
 }
 ASSUMPTIONS = [
@@ -63,6 +71,8 @@ ASSUMPTIONS = [
     "for `local=True` on a bound branch only the local branch and its tags are judged (BasicTags.delete_tag also deletes the tag in the master although the master keeps the revision: reported as an observation, the property text does not cover it)",
     "tree parents after commit / merge / update are read from the real tree (they feed the graph model; C09 / C23 judge those operations); parents after uncommit are predicted",
     "mtime is compared at nanosecond resolution through os.lstat; uncommit must not rewrite any file",
+    "failed uncommit: the property text only speaks of successful uncommits; judged is the order the code documents and C23 states for commits (master first, then local, then tree, then tags): whatever was not reached must be unchanged, in particular a tree must never be rewritten while its branch tip stays; a master that moved while the local write failed is accepted; faults after the tip writes (tree / tag steps) are not injected (the dirstate has no seam)",
+    "a process-wide pre_change_branch_tip hook is installed in warm(); it only acts when the running simulation arms it",
 ]
 
 
@@ -214,6 +224,8 @@ def generate(rng, tier):
             if rng.random() < 0.2:
                 a["default_revno"] = True
                 a["back"] = 1
+            if rng.random() < 0.2:
+                a["fault"] = {"how": rng.choice(["err", "err", "hook"]), "which": rng.choice(["master", "local"]), "err": rng.choice(["transport", "enospc", "connection"])}
             ops.append(["uncommit", a])
             depth = max(0, depth - a["back"])
             if depth == 0:
@@ -387,18 +399,106 @@ def _execute(sim, plan):
         b = tree("X").branch
         return _uncommit.uncommit(b, tree=tree("X") if a.get("tree", True) else None, revno=revno, keep_tags=bool(a.get("keep_tags")), local=bool(a.get("local")))
 
+    def is_master_path(path):
+        return "/master/.bzr/" in path
+
+    def arm_tip_fault(fault, p):
+        """The write of a branch tip fails during uncommit: an error before the put of
+        last-revision (how=err) or a pre_change_branch_tip hook veto (how=hook), at the
+        master's tip (which=master, only when the uncommit goes through the master) or at
+        the local one."""
+        which = fault.get("which", "local")
+        if which == "master" and not p["via_master"]:
+            which = "local"
+        st = {"fired": False, "which": which, "how": fault.get("how", "err"), "mon": None}
+        if st["how"] == "hook":
+
+            def rej(branch):
+                base = branch.base
+                hit = is_master_path(base + ".bzr/") if which == "master" else not is_master_path(base + ".bzr/")
+                if hit and not st["fired"]:
+                    st["fired"] = True
+                    return True
+                return False
+
+            sim.c16_reject = rej
+            return st
+
+        def filt(actor, opname, path, mutating):
+            if not st["fired"] and opname == "put" and path.endswith("/branch/last-revision") and is_master_path(path) == (which == "master"):
+                st["fired"] = True
+                sim.faults = [{"kind": "err_before", "at": actor.nops + 1, "count": "any", "err": fault.get("err", "transport")}]
+            return True
+
+        sim.arm([])
+        sim.fault_filter = filt
+        return st
+
+    def disarm_tip_fault(st):
+        sim.c16_reject = None
+        sim.fault_filter = None
+        sim.disarm()
+
+    def judge_failed_uncommit(op, a, p, before, exc, st, site):
+        """The tip write failed.  uncommit moves the master, then the local branch, then
+        rewrites the tree, then drops tags: a failure may leave a prefix of that order done,
+        never a later step without the earlier ones."""
+        fk = "hook" if st["how"] == "hook" else "err_before"
+        fsite = "%s:%s-tip" % (site, st["which"])
+        sim.probe("uncommit_fault_%s_%s" % (st["how"], st["which"]))
+        what = "%s with the %s tip write failing (%s)" % (json.dumps(op), st["which"], "hook veto" if fk == "hook" else "I/O error")
+        if exc is None:
+            sim.fail("failed_uncommit", ["failed_uncommit", fk, fsite + ":reported-success"], "%s returned normally [%s]" % (what, state_text()))
+        if fk == "err_before":
+            sim.restart_main()
+            urls_ = [xurl] + ([murl] if murl else [])
+            cosim.break_locks(sim, urls_, [roots["X"]])
+        after = snapshot()
+        if after["files"] != before["files"]:
+            sim.fail("files_untouched", ["files_untouched", fk, fsite], "%s changed files: %r" % (what, stats_diff(before["files"], after["files"])))
+        if after["local"] != before["local"]:
+            sim.fail("failed_uncommit", ["failed_uncommit", fk, fsite + ":local-tip-moved"], "%s raised %r, yet the local branch moved %r -> %r" % (what, exc, before["local"], after["local"]))
+        # the local tip did not move: nothing after it may have happened
+        if after["tree"] != before["tree"]:
+            sim.fail(
+                "failed_uncommit",
+                ["failed_uncommit", fk, fsite + ":tree-rewritten-tip-not-moved"],
+                "%s raised %s; the branch is still at %r but the tree's parents / pending changes were rewritten: parents %r -> %r, changes %s" % (what, type(exc).__name__, after["local"], before["tree"][0], after["tree"][0], cosim.diff(before["tree"][1], after["tree"][1])),
+            )
+        if after["tags"] != before["tags"]:
+            sim.fail("failed_uncommit", ["failed_uncommit", fk, fsite + ":tags-dropped-tip-not-moved"], "%s; tags %r -> %r" % (what, before["tags"], after["tags"]))
+        if murl:
+            moved = (p["revno"], p["tip"])
+            if st["which"] == "master" or not p["via_master"]:
+                if after["master"] != before["master"]:
+                    sim.fail("failed_uncommit", ["failed_uncommit", fk, fsite + ":master-moved"], "%s; the master moved %r -> %r" % (what, before["master"], after["master"]))
+            elif after["master"] not in (before["master"], moved):
+                sim.fail("failed_uncommit", ["failed_uncommit", fk, fsite + ":master-elsewhere"], "%s; the master is at %r (before %r, target %r)" % (what, after["master"], before["master"], moved))
+            elif after["master"] == moved:
+                sim.probe("uncommit_master_first_outcome")
+            if after["master_tags"] != before["master_tags"]:
+                sim.fail("failed_uncommit", ["failed_uncommit", fk, fsite + ":master-tags"], "%s; the master's tags %r -> %r" % (what, before["master_tags"], after["master_tags"]))
+        sim.event("failed-uncommit", fsite, type(exc).__name__)
+
     def judge_uncommit(op, a, k, before, site):
         """Run the uncommit and compare with the model; returns False when the run must stop."""
         p = m.predict_uncommit(a, k)
         lh = m.g.lefthand(m.tip)
         revno = None if a.get("default_revno") else len(lh) - k + 1
         exc = None
+        fault = a.get("fault") if not p["refusal"] else None
+        armed = arm_tip_fault(fault, p) if fault else None
         try:
             do_uncommit(a, revno)
         except (SimCrash, KeyboardInterrupt, SystemExit):
             raise
         except Exception as e:  # noqa: BLE001 - judged below
             exc = e
+        if armed is not None:
+            disarm_tip_fault(armed)
+            if armed["fired"]:
+                judge_failed_uncommit(op, a, p, before, exc, armed, site)
+                return False
         after = snapshot()
         if p["refusal"]:
             if exc is None:
@@ -637,7 +737,10 @@ def _execute(sim, plan):
                     sim.probe("uncommit_drops_tags")
                 if a.get("keep_tags") and any(r in p["gone"] for r in m.tags.values()):
                     sim.probe("uncommit_keeps_tags")
+            if a.get("fault") and not p["refusal"]:
+                nontrivial = True
             if not judge_uncommit(op, a, k, before, site):
+                sim.nontrivial = nontrivial
                 return
             verify(json.dumps(op), site)
             if not a.get("tree", True):
@@ -657,6 +760,10 @@ def shrink_candidates(plan):
         if op[0] == "commit" and op[1].get("undo"):
             p = copy.deepcopy(plan)
             p["ops"][i][1]["undo"] = False
+            yield p
+        if op[0] == "uncommit" and op[1].get("fault"):
+            p = copy.deepcopy(plan)
+            del p["ops"][i][1]["fault"]
             yield p
         if op[0] == "uncommit" and op[1].get("back", 1) > 1:
             p = copy.deepcopy(plan)
@@ -691,17 +798,46 @@ WARM_OPS = [
     ["commit", {"n": 11, "undo": False}],
     ["uncommit", {"back": 2, "keep_tags": True, "tree": True}],
     ["commit", {"n": 12, "undo": False}],
+    ["commit", {"n": 13, "undo": False}],
     ["reopen"],
     ["uncommit", {"back": 3, "keep_tags": False, "tree": False}],
 ]
 
+WARM_HEAD = [
+    ["commit", {"n": 1, "undo": False}],
+    ["side", {"n": 2, "who": "Y", "sync": True}],
+    ["merge", {"who": "Y"}],
+    ["commit", {"n": 3, "undo": False}],
+    ["tag", {"name": "t4", "pick": 0, "where": "tip"}],
+]
+
 _warmed = []
+
+
+_hook_installed = []
+
+
+def _tip_hook(params):
+    """pre_change_branch_tip hook, installed once per process: vetoes the tip change when
+    the simulation that owns the calling thread asks for it (sim.c16_reject(branch))."""
+    from breezy import errors
+    from simkit.sim import CTX
+
+    sim = getattr(CTX, "sim", None)
+    rej = getattr(sim, "c16_reject", None)
+    if rej is not None and rej(params.branch):
+        raise errors.TipChangeRejected("vetoed by the simulation")
 
 
 def warm():
     storesim.warm()
     T.quiet()
     cosim.install_repo_tracker()
+    if not _hook_installed:
+        from breezy.branch import Branch
+
+        Branch.hooks.install_named_hook("pre_change_branch_tip", _tip_hook, "C16 simulated veto")
+        _hook_installed.append(1)
     if _warmed:
         return
     _warmed.append(1)
@@ -719,11 +855,15 @@ def warm():
     saved = {k: os.environ.get(k) for k in ("VERIF_SCRATCH", "BRZ_HOME", "HOME")}
     tmp = tempfile.mkdtemp(prefix="verif-warm-", dir="/dev/shm")
     try:
-        for j, kind in enumerate(("standalone", "light", "bound")):
+        plans = [(kind, WARM_OPS) for kind in ("standalone", "light", "bound")]
+        for kind in ("standalone", "bound"):
+            for how, which in (("err", "master"), ("hook", "local"), ("err", "local")):
+                plans.append((kind, WARM_HEAD + [["uncommit", {"back": 1, "keep_tags": False, "tree": True, "fault": {"how": how, "which": which, "err": "transport"}}]]))
+        for j, (kind, ops) in enumerate(plans):
             sc = os.path.join(tmp, "s%d" % j)
             os.makedirs(os.path.join(sc, "home"))
             os.environ.update(VERIF_SCRATCH=sc, BRZ_HOME=os.path.join(sc, "home"), HOME=os.path.join(sc, "home"))
-            plan = {"kind": kind, "ops": copy.deepcopy(WARM_OPS)}
+            plan = {"kind": kind, "ops": copy.deepcopy(ops)}
             sim = Sim(1, plan, step_cap=10**6)
             sim.tier = "quick"
             try:
